@@ -112,6 +112,8 @@ type regionSpec struct {
 	// Bool (true = left early; the other components are the values at that point)
 	untilIfOn string
 	early     bool
+	// defsOf: the region is the top-level `v := e` statements of the function that define these variables
+	defsOf []string
 }
 
 var regions = []regionSpec{
@@ -120,6 +122,8 @@ var regions = []regionSpec{
 		vars: []string{"start", "stop", "count"}, varTypes: []string{"int", "int", "int"}, results: []string{"start", "stop"}, alias: map[string]string{"list.count": "count"}},
 	{fn: "fnBitCount", leanName: "bitcountClamp", from: "right side indexing", untilIfOn: "bitMode", early: true,
 		vars: []string{"start", "end", "length"}, varTypes: []string{"int", "int", "int"}, results: []string{"start", "end"}},
+	{fn: "countSetBitRange", leanName: "bitcountMasks", defsOf: []string{"startMask", "endMask"},
+		vars: []string{"start", "end"}, varTypes: []string{"int", "int"}, results: []string{"startMask", "endMask"}},
 	{fn: "dataStoreCommand.ltrim", leanName: "ltrimClamp", from: "convert negative list position args", to: "",
 		vars: []string{"start", "stop", "count"}, varTypes: []string{"int", "int", "int"}, results: []string{"start", "stop"}, alias: map[string]string{"list.count": "count"}},
 }
@@ -402,6 +406,23 @@ func (ev *env) expr(e ast.Expr, want ty) (string, ty) {
 		}
 		if x.Op == token.AND_NOT {
 			return fmt.Sprintf("(%s &&& ~~~%s)", l, r), t
+		}
+		// Go's integer division truncates toward zero and the remainder takes the sign of the dividend: sdiv / srem
+		// (a zero divisor panics in Go; not modelled — the divisors translated so far are non-zero constants)
+		if x.Op == token.QUO || x.Op == token.REM {
+			if _, isConst := constVal(x.Y); !isConst {
+				fail(x.Pos(), fset, "division by a non-constant")
+			}
+			switch {
+			case x.Op == token.QUO && t.signed:
+				return fmt.Sprintf("(BitVec.sdiv %s %s)", l, r), t
+			case x.Op == token.REM && t.signed:
+				return fmt.Sprintf("(BitVec.srem %s %s)", l, r), t
+			case x.Op == token.QUO:
+				return fmt.Sprintf("(%s / %s)", l, r), t
+			default:
+				return fmt.Sprintf("(%s %% %s)", l, r), t
+			}
 		}
 		fail(x.Pos(), fset, "binary %v (division and remainder are not in the subset)", x.Op)
 	}
@@ -829,7 +850,22 @@ func translateRegion(fd *ast.FuncDecl, r regionSpec, funcs map[string]*sig) (out
 		}
 	}()
 	var stmts []ast.Stmt
-	if r.from != "" {
+	if len(r.defsOf) > 0 {
+		for _, st := range fd.Body.List {
+			if as, ok := st.(*ast.AssignStmt); ok && as.Tok == token.DEFINE && len(as.Lhs) == 1 {
+				if id, ok := as.Lhs[0].(*ast.Ident); ok {
+					for _, v := range r.defsOf {
+						if id.Name == v {
+							stmts = append(stmts, st)
+						}
+					}
+				}
+			}
+		}
+		if len(stmts) != len(r.defsOf) {
+			return "", fmt.Errorf("%s: the definitions of %v were not found", r.fn, r.defsOf)
+		}
+	} else if r.from != "" {
 		stmts = findCommentRegion(regionFile, fd, r.from, r.to, r.untilIfOn)
 	} else {
 		stmts = findRegion(fd.Body, r.lenVar)
@@ -843,9 +879,6 @@ func translateRegion(fd *ast.FuncDecl, r regionSpec, funcs map[string]*sig) (out
 		ev.vars[v] = types[r.varTypes[i]]
 		params = append(params, fmt.Sprintf("(%s : %s)", ln(v), types[r.varTypes[i]].lean()))
 	}
-	for _, v := range r.results {
-		rts = append(rts, ev.vars[v].lean())
-	}
 	var rnames []string
 	for _, v := range r.results {
 		rnames = append(rnames, ln(v))
@@ -854,13 +887,21 @@ func translateRegion(fd *ast.FuncDecl, r regionSpec, funcs map[string]*sig) (out
 	if r.early {
 		ev.early = "(true, " + strings.Join(rnames, ", ") + ")"
 		ev.tuple = "(false, " + strings.Join(rnames, ", ") + ")"
-		rts = append([]string{"Bool"}, rts...)
 	}
 	body := ev.block(stmts, 1)
+	for _, v := range r.results { // after the block: a result may be defined inside the region
+		rts = append(rts, ev.vars[v].lean())
+	}
+	if r.early {
+		rts = append([]string{"Bool"}, rts...)
+	}
 	pos := fset.Position(fd.Pos())
 	where := "`" + r.lenVar + " := len(…)`"
 	if r.from != "" {
 		where = "the comment \"" + r.from + "\""
+	}
+	if len(r.defsOf) > 0 {
+		where = "their definitions (the `:=` statements of " + strings.Join(r.defsOf, ", ") + ")"
 	}
 	return fmt.Sprintf("/-- the index arithmetic of `%s` (%s): %s after the statements that follow %s -/\ndef %s %s : %s :=\n  %s\n",
 		r.fn, filepath.Base(pos.Filename), strings.Join(r.results, ", "), where, r.leanName, strings.Join(params, " "), strings.Join(rts, " × "), body), nil
